@@ -6,7 +6,7 @@
       heap, read, write          caller objects are cells; [EWrite l v] is an in-place overwrite
       datum = Copy v | View l    what a detector attribute holds; [deref h] looks through views
       code                       the facts deciding Copy-or-View: [current] (this tree), [pre_S13]
-                                 (validation returned X.values), [repaired] (MD3 oracle site copies too)
+                                 (validation returned X.values), [pre_md3_fix] (MD3 kept the first labelled frame)
       trace c D st h evs         the detector's outputs after every call of a history of calls
                                  interleaved with caller writes / allocations
       pure_trace D ps (handed h evs)
@@ -20,13 +20,13 @@
     PARTIAL: Copy-or-View at each site is decided by [code]; that numpy / pandas behave as [current]
     says is measured by harness/c15.py (np.shares_memory at every site, on every run), not proved.
 
-    Findings:
+    Findings (both repaired in /repo; the witnesses below replay the old behaviour on the old [code] records):
       S13 (fixed, commit e5126c7): validation returned X.values, a live view of a one-block DataFrame;
           [C15_S13_view_refuted] replays it on [pre_S13] (NNDVI.reference_batch).
-      MD3 (OPEN, md3.py:293): give_oracle_label keeps the caller's DataFrame itself as oracle_data until the
-          next labelled row arrives; [C15_md3_oracle_alias_refuted] is the model-level witness, the harness
-          has the witness against the implementation.  [C15_copy_sites_safe] therefore covers every
-          detector except MD3, for which [C15_md3_copy_sites_safe_partial] is the strongest true statement. *)
+      MD3 (fixed, commit "fix: MD3 stores a copy of the first labeled sample instead of the caller's DataFrame"):
+          give_oracle_label kept the caller's DataFrame itself as oracle_data until the next labelled row arrived;
+          [C15_md3_oracle_alias_refuted] replays it on [pre_md3_fix].
+      [C15_copy_sites_safe] / [C15_md3_copy_sites_safe] cover every detector of the current tree. *)
 From MV Require Import Base Heap Heap_Proofs.
 Local Open Scope nat_scope.
 
@@ -115,22 +115,15 @@ Theorem C15_ensemble_copy_sites_safe :
   stores_only_copies c K (ensemble D1 D2 E elect).
 Proof. intros A c K D1 D2 E elect. apply ensemble_safe. Qed.
 
-(** MD3: the full statement is false of the faithful model ([C15_md3_oracle_alias_refuted]).  What holds
-    on the current tree: every method other than give_oracle_label stores copies; so does
-    give_oracle_label whenever labelled rows are already stored (pd.concat); and the whole detector
-    does as soon as the first labelled row is copied ([md3_oracle_copies c = true], e.g. [repaired]). *)
-Theorem C15_md3_copy_sites_safe_partial :
-  forall (A P O : Type) (c : code) (p0 : P) (ok : method -> P -> @value A -> bool)
+(** MD3 on the current tree (first labelled row copied): every site of every method stores a copy, on
+    every container; more generally for every [code] whose oracle site copies *)
+Theorem C15_md3_copy_sites_safe :
+  forall (A P O : Type) (p0 : P) (ok : method -> P -> @value A -> bool)
          (show : P -> list (list value) -> O) ft tg f g lab,
-  let D := md3 c P O p0 ok show ft tg f g lab in
-  (forall m p sl x k, m <> MOracle -> forallb (action_safe c k) (snd (sites D m p sl x)) = true) /\
-  (forall p sl x k, nth 2 sl [] <> [] -> forallb (action_safe c k) (snd (sites D MOracle p sl x)) = true) /\
-  (md3_oracle_copies c = true -> forall K, stores_only_copies c K D).
+  stores_only_copies current all_kinds (md3 current P O p0 ok show ft tg f g lab) /\
+  (forall c K, md3_oracle_copies c = true -> stores_only_copies c K (md3 c P O p0 ok show ft tg f g lab)).
 Proof.
-  intros A P O c p0 ok show ft tg f g lab D. split; [|split].
-  - intros; now apply md3_other_sites_safe.
-  - intros; now apply md3_oracle_next_safe.
-  - intros H K; now apply md3_safe.
+  intros A P O p0 ok show ft tg f g lab. split; [apply md3_safe; reflexivity | intros c K H; now apply md3_safe].
 Qed.
 
 (** before the repair of S13 the sites were safe on every container except one-block DataFrames *)
@@ -183,20 +176,24 @@ Example C15_noninterference_hypotheses_satisfiable :
   clean_run current nndvi_demo (init nndvi_demo) [ref_batch; test_batch] s13_history.
 Proof. split; [reflexivity|]. simpl. repeat split; reflexivity. Qed.
 
-(** MD3 (OPEN): [self.oracle_data = labeled_sample] keeps the caller's DataFrame.
-    give_oracle_label(s1); s1.iloc[:, :] = 99; give_oracle_label(s2): oracle_data starts with junk.
-    This holds for the CURRENT tree (any container: the object itself is kept), not for [repaired]. *)
+(** MD3 (FIXED by "fix: MD3 stores a copy of the first labeled sample instead of the caller's DataFrame"):
+    with [self.oracle_data = labeled_sample] the detector kept the caller's DataFrame itself (any container).
+    give_oracle_label(s1); s1.iloc[:, :] = 99; give_oracle_label(s2): oracle_data started with junk.
+    This is the PRE-fix behaviour ([pre_md3_fix]); on the current tree the same history is not affected. *)
 Definition md3_history : list (@event Z) :=
   [ECall MOracle KDFMixed 0; EWrite 0 junk; ECall MOracle KDFMixed 1].
 Example C15_md3_oracle_alias_refuted :
-  let c := mkCode true true false true true in
+  let c := pre_md3_fix in
   trace c (md3_demo c) (init (md3_demo c)) [ref_batch; test_batch] md3_history
     = [[[]; []; [ref_batch]]; [[]; []; [junk ++ test_batch]]] /\
   pure_trace (md3_demo c) (pure_init (md3_demo c)) (handed [ref_batch; test_batch] md3_history)
     = [[[]; []; [ref_batch]]; [[]; []; [ref_batch ++ test_batch]]] /\
-  trace repaired (md3_demo repaired) (init (md3_demo repaired)) [ref_batch; test_batch] md3_history
-    = [[[]; []; [ref_batch]]; [[]; []; [ref_batch ++ test_batch]]].
-Proof. repeat split; reflexivity. Qed.
+  trace current (md3_demo current) (init (md3_demo current)) [ref_batch; test_batch] md3_history
+    = [[[]; []; [ref_batch]]; [[]; []; [ref_batch ++ test_batch]]] /\
+  ~ clean_run c (md3_demo c) (init (md3_demo c)) [ref_batch; test_batch] md3_history.
+Proof.
+  repeat split; try reflexivity. intros [H _]. vm_compute in H. discriminate.
+Qed.
 
 (** ---- injectors ------------------------------------------------------------------------------- *)
 
@@ -252,7 +249,7 @@ Proof. split; reflexivity. Qed.
 (** ---- the harness checkers are about these models ------------------------------------------------ *)
 
 (** the origins [chk_site] uses for the sites that are not plainly fresh are the ones of the models, and on
-    the current tree [chk_twin] demands equal traces for every history that involves no MD3 *)
+    the current tree [chk_twin] demands equal traces for every history *)
 Theorem C15_checker_tables :
   forall (A : Type) (c : code) (P O : Type) (p0 : P) ok show,
   ((forall f g p sl (x : @value A), snd (sites (nndvi P O p0 ok show f g) MSetReference p sl x)
@@ -267,10 +264,9 @@ Theorem C15_checker_tables :
    (forall ft tg f g lab p sl (x : @value A), nth 2 sl [] = [] ->
        exists s rest, snd (sites (md3 c P O p0 ok show ft tg f g lab) MOracle p sl x) = Store 2 s :: rest
        /\ origin_of s = site_origin c SiteMd3OracleFirst)) /\
-  (forall ds ks, existsb (fun d => match d with DMd3 => true | _ => false end) ds = false ->
-                 promises_equal current ds ks = true).
+  (forall ds ks, promises_equal current ds ks = true).
 Proof.
-  intros A c P O p0 ok show. split; [apply site_table | apply promises_equal_current_nomd3].
+  intros A c P O p0 ok show. split; [apply site_table | apply promises_equal_current].
 Qed.
 
 Print Assumptions C15_noninterference.
@@ -280,7 +276,7 @@ Print Assumptions C15_later_outputs_heap_independent.
 Print Assumptions C15_call_frame.
 Print Assumptions C15_copy_sites_safe.
 Print Assumptions C15_ensemble_copy_sites_safe.
-Print Assumptions C15_md3_copy_sites_safe_partial.
+Print Assumptions C15_md3_copy_sites_safe.
 Print Assumptions C15_pre_S13_safe_except_one_block_frames.
 Print Assumptions C15_inject_fresh_and_frame.
 Print Assumptions C15_inject_refuses_other_containers.
